@@ -106,6 +106,7 @@ func TestC19_Exhaustive(t *testing.T) {
 		}
 	}
 	rec.Exhaustive("all (method,class) pairs and all 16-bit wire values", true)
+	rec.Note("complete_domain", true)
 }
 
 func TestC19_Replay(t *testing.T) { replayAll(t, "C19") }
